@@ -424,3 +424,30 @@ package types
 //@   for C02 C19 C13
 //@   requires blockID != nil
 //@   ensures r <==> *blockID == other
+
+// ---------------------------------------------------------------- C14/C13: validators on the wire / on disk
+//@ func (v *Validator) ToProto() (r *kproto.Validator, err error)
+//@   for C14 C13
+//@   ensures v == nil ==> r == nil && err != nil
+//@   ensures [allFieldsCopied] v != nil ==> err == nil && fresh(r) && r.VotingPower == v.VotingPower && r.ProposerPriority == v.ProposerPriority && content(r.Address) == content(v.Address) && len(r.Address) == 20
+
+//@ func ValidatorFromProto(vp *kproto.Validator) (r *Validator, err error)
+//@   for C14 C13
+//@   ensures vp == nil ==> r == nil && err != nil
+//@   ensures [allFieldsCopied] vp != nil ==> err == nil && fresh(r) && r.VotingPower == vp.VotingPower && r.ProposerPriority == vp.ProposerPriority && (len(vp.Address) == 20 ==> content(r.Address) == content(vp.Address))
+
+// The whole set: every member with its priority, the proposer, the cached total.
+//@ func (vs *ValidatorSet) ToProto() (r *kproto.ValidatorSet, err error)
+//@   for C14 C13
+//@   requires vs != nil ==> (forall i int :: 0 <= i && i < len(vs.Validators) ==> vs.Validators[i] != nil)
+//@   ensures [membersCopied] err == nil && vs != nil && len(vs.Validators) > 0 ==> len(r.Validators) == len(vs.Validators) && (forall i int :: 0 <= i && i < len(vs.Validators) ==> r.Validators[i] != nil && r.Validators[i].VotingPower == vs.Validators[i].VotingPower && r.Validators[i].ProposerPriority == vs.Validators[i].ProposerPriority && content(r.Validators[i].Address) == content(vs.Validators[i].Address))
+//@   ensures [proposerAndTotalCopied] err == nil && vs != nil && len(vs.Validators) > 0 ==> r.Proposer != nil && r.Proposer.ProposerPriority == vs.Proposer.ProposerPriority && r.Proposer.VotingPower == vs.Proposer.VotingPower && content(r.Proposer.Address) == content(vs.Proposer.Address) && r.TotalVotingPower == vs.totalVotingPower
+//@   loop 1:
+//@     invariant 0 <= i && i <= len(vs.Validators) && len(valsProto) == len(vs.Validators) && fresh(valsProto)
+//@     invariant forall k int :: 0 <= k && k < i ==> valsProto[k] != nil && valsProto[k].VotingPower == vs.Validators[k].VotingPower && valsProto[k].ProposerPriority == vs.Validators[k].ProposerPriority && content(valsProto[k].Address) == content(vs.Validators[k].Address)
+
+// (ValidatorSetFromProto ends in ValidateBasic, which renders addresses as hex: outside the subset; its
+// field-copy loop has the same shape as ToProto's. Trusted.)
+//@ trusted func ValidatorSetFromProto(vp *kproto.ValidatorSet) (r *ValidatorSet, err error)
+//@   ensures err == nil ==> fresh(r) && len(r.Validators) == len(vp.Validators) && r.totalVotingPower == vp.TotalVotingPower
+//@   ensures err == nil ==> forall i int :: 0 <= i && i < len(r.Validators) ==> r.Validators[i] != nil && r.Validators[i].VotingPower == vp.Validators[i].VotingPower && r.Validators[i].ProposerPriority == vp.Validators[i].ProposerPriority
